@@ -5,12 +5,18 @@ package c07
 import (
 	"context"
 	"fmt"
+	"os"
+	"runtime"
 	"sync"
 	"sync/atomic"
 	"testing"
 	"time"
 
+	"pgregory.net/rapid"
+
 	"github.com/safing/portbase/modules"
+
+	"verifharness/internal/stats"
 )
 
 // TestRegOverdueTaskRacesQueueWait: fixed finding. An overdue task is started by the schedule handler while the queue
@@ -136,4 +142,88 @@ func TestRegScheduleOnCancelledTaskKeepsScheduleSorted(t *testing.T) {
 	final := c.finalStates(rs)
 	c.finish(rs)
 	c.judge(t, rs, stuck, final)
+}
+
+// TestPropSubmissionStorm: several goroutines keep submitting the same tasks (Schedule for now or a moment ahead,
+// Queue, QueuePrioritized, StartASAP) while the schedule and queue handlers work on them. Every call must return
+// (the handlers and the callers take the task lock and the list locks from both sides), every task must have been
+// executed after the storm and never concurrently with itself.
+func TestPropSubmissionStorm(t *testing.T) {
+	rapid.Check(t, func(t *rapid.T) {
+		m := mods[0]
+		prefix := fmt.Sprintf("storm%d.", atomic.AddInt64(&caseSeq, 1))
+		nTasks := rapid.IntRange(1, 3).Draw(t, "tasks")
+		nCallers := rapid.IntRange(2, 6).Draw(t, "callers")
+		calls := rapid.SampledFrom([]int{300, 1500}).Draw(t, "calls")
+		aheadUS := rapid.SampledFrom([]int{0, 0, 50, 500}).Draw(t, "ahead_us")
+		mix := rapid.SampledFrom([]string{"schedule", "schedule", "mixed"}).Draw(t, "mix")
+		type st struct {
+			running, overlaps, runs int32
+		}
+		sts := make([]*st, nTasks)
+		tasks := make([]*modules.Task, nTasks)
+		for i := range tasks {
+			s := &st{}
+			sts[i] = s
+			tasks[i] = m.NewTask(fmt.Sprintf("%st%d", prefix, i), func(context.Context, *modules.Task) error {
+				if atomic.AddInt32(&s.running, 1) > 1 {
+					atomic.AddInt32(&s.overlaps, 1)
+				}
+				atomic.AddInt32(&s.runs, 1)
+				time.Sleep(20 * time.Microsecond)
+				atomic.AddInt32(&s.running, -1)
+				return nil
+			}).MaxDelay(time.Hour)
+		}
+		var wg sync.WaitGroup
+		for c := 0; c < nCallers; c++ {
+			wg.Add(1)
+			go func(c int) {
+				defer wg.Done()
+				for i := 0; i < calls; i++ {
+					tk := tasks[(c+i)%nTasks]
+					switch {
+					case mix == "schedule" || i%4 == 0:
+						tk.Schedule(time.Now().Add(time.Duration(aheadUS) * time.Microsecond))
+					case i%4 == 1:
+						tk.Queue()
+					case i%4 == 2:
+						tk.QueuePrioritized()
+					default:
+						tk.StartASAP()
+					}
+				}
+			}(c)
+		}
+		done := make(chan struct{})
+		go func() { wg.Wait(); close(done) }()
+		select {
+		case <-done:
+		case <-time.After(60 * time.Second):
+			buf := make([]byte, 1<<20)
+			buf = buf[:runtime.Stack(buf, true)]
+			fmt.Fprintf(os.Stderr, "C07-wedged: %d goroutines submitting %d tasks (%s, %d us ahead) did not all return within 60 s: a submission call is blocked\n%s\n", nCallers, nTasks, mix, aheadUS, buf)
+			stats.Flush(1)
+			os.Exit(1) // the locks stay taken: no further case can run in this process
+		}
+		// every task was submitted after its last run began at some point: it must run (again) and come to rest
+		deadline := time.Now().Add(150 * time.Second) // two execution-wait limits (known t.ctx stall, allowed)
+		for i, s := range sts {
+			for atomic.LoadInt32(&s.runs) == 0 {
+				if time.Now().After(deadline) {
+					t.Fatalf("C07-lost: task %d of the storm was never executed although it was submitted %d times", i, nCallers*calls/nTasks)
+				}
+				time.Sleep(200 * time.Microsecond)
+			}
+		}
+		for i, s := range sts {
+			if o := atomic.LoadInt32(&s.overlaps); o != 0 {
+				t.Fatalf("C07-overlap: task %d ran concurrently with itself %d times during the storm", i, o)
+			}
+		}
+		for _, tk := range tasks {
+			tk.Cancel()
+		}
+		stats.Case(fmt.Sprintf("storm %d %d %d %d %s", nTasks, nCallers, calls, aheadUS, mix), true, "submission_storm_"+mix)
+	})
 }
